@@ -1315,7 +1315,15 @@ DTLS_CHECK_REPLAY:
 #ifdef USE_DTLS
         if (ACTV_VER(ssl, v_dtls_any))
         {
-            if (ssl->hsState != SSL_HS_FINISHED)
+            if (ssl->hsState != SSL_HS_FINISHED
+# ifdef USE_STATELESS_SESSION_TICKETS
+                /* A server that accepts our session ticket without issuing
+                   a new one sends CCS right after ServerHello (RFC 5077,
+                   3.1); that case is resolved further below */
+                && !(ssl->sid && ssl->sid->sessionTicketState ==
+                        SESS_TICKET_STATE_IN_LIMBO)
+# endif
+                )
             {
                 /* Possible to get the changeCipherSpec message out of order */
                 psTraceIntInfo("Got out of order CCS: state %d\n", ssl->hsState);
